@@ -498,6 +498,7 @@ func createSwitchStatementChunks(stmt *ast.SwitchStatement, statementIndex int, 
 	branchCases := []*switchCaseBranch{}
 	i := 0
 	processedDefaultCase := false
+	noopChunkID := -1
 	for i < len(stmt.Cases) {
 		switchCase := stmt.Cases[i]
 		destChunkID := -1
@@ -563,8 +564,25 @@ func createSwitchStatementChunks(stmt *ast.SwitchStatement, statementIndex int, 
 			// bodies, we want to completely omit even rendering the switch statement because
 			// it's a no-op. By early-returning here, we avoid adding the switch branchBehavior,
 			// which will result in the switch not being rendered in the output.
-			if len(branchCases) == 0 {
+			if len(branchCases) == 0 && !processedDefaultCase {
 				return remainingChunks, &jump{destChunkID: switchChunk.id}, returnID
+			}
+			if processedDefaultCase && !stmt.Cases[i].IsDefault {
+				// A default case with a body was already seen, so this case has to be listed
+				// to keep its value from reaching the default body. It leads to an empty chunk.
+				if noopChunkID == -1 {
+					*chunkCounter++
+					noopChunk := &chunk{
+						id:       *chunkCounter,
+						returnID: returnID,
+					}
+					remainingChunks = append(remainingChunks, noopChunk)
+					noopChunkID = noopChunk.id
+				}
+				branchCases = append(branchCases, &switchCaseBranch{
+					comparisonValue: stmt.Cases[i].Value,
+					destChunkID:     noopChunkID,
+				})
 			}
 		} else if !stmt.Cases[i].IsDefault {
 			branchCases = append(branchCases, &switchCaseBranch{
